@@ -109,3 +109,24 @@ PROPS['C17'] = dict(
     level_text="prob_to_str is verified in Float64 for every k = 1..99 (99 ground instances of the real function: exhaustive over the finite domain) to return str(k) for the double nearest k/100; main is symbolically executed and the file name passed to write_robots is proved equal to the tagged concatenation inputs/robot_<seed>_w<width>_l<length>_r<max>_rb<P>_lb<P>_tb<P>_lt<P>[_force_down].py with the right parameter in every field; field-by-field injectivity of that shape is proved as eight string lemmas by cvc5.",
     level_note="Trusted: z3 (FP), cvc5 (strings), the encoder, argparse's assumed contract. Exhaustive for the 99 whole percentages; other probabilities are named by rounding (not claimed injective).",
 )
+
+A_BUILD = "builders are encoded in the value model (lists built locally); probabilities are reals (A-REAL); a (label, target) tuple is Trans(lab, prob, tgt)"
+PROPS['C08'] = dict(
+    functions=fns('C08'),
+    assumptions=[A_LIST, A_TRANS, A_BUILD],
+    trusted_base=['the per-tile cell functions Cell_<builder> of contracts/roberta_generator.py: what the Roborta rules of the statement prescribe for tile (a, b) of each state group'],
+    undecided_clauses=["the assembly of the builders' lists into each game (group order, offsets passed, owners and rewards per group) inside write_robot_A/B/C is not yet under a deductive contract; it is covered by the bounded executable contract (bisimulation of each generated game with the Roborta game of the board, all boards up to 2 tiles (3 in the thorough tier) x all arrow/loose layouts, plus sampled larger boards)",
+                       "that the written FILE denotes the same dict (str(game).replace(...) then eval) is outside any solver theory: bounded (C11)"],
+    level_text="All nine transition builders are verified from their real AST for boards of ANY length and width >= 1 and any arrow / loose-tile layout: each returns exactly length*width transition lists and the list at position a*width+b equals, element by element (labels, probabilities, targets, order), the cell the Roborta rules prescribe for tile (a, b): wrap-around within the row by cases, win from the last row, tile-break / robot-break / light-break probabilities p and 1-p on the right branches, Yellow withheld on down-only tiles, free choice restricted to the tile's arrows.",
+    level_note="Trusted: z3/cvc5, the encoder (nonlinear index arithmetic a*width+b handled by z3), the cell functions as the reading of the rules. The composition of the groups inside write_robot_A/B/C and the file text are bounded stand-ins (bisimulation oracle), not proved.",
+)
+PROPS['C11'] = dict(
+    functions=fns('C11'),
+    static=[('board-draws-depend-only-on-seed-and-parameters', ST.seeded_randomness('roberta_generator', 'gen_rnd_board', ['get_random_moves']))],
+    assumptions=[A_LIST, A_TRANS, A_BUILD, A_EXT],
+    trusted_base=['Cell_<builder> functions; z3 FP theory for check_input'],
+    undecided_clauses=["the file text round trip (str/replace/eval), the three keys, validation by the real check_game/check_next_states/init_states, 'every state has a transition', 'probabilities positive summing to 1', 'single absorbing final / absorbing loser' are evaluated on the games actually written and read back for enumerated and sampled boards: bounded, not proved",
+                       "'each game is then either solved or reported as having no solution': depends on termination of the reward sweep, which is not proved and FAILS for generated games that are not stopping (known finding F-DIVERGE)"],
+    level_text="Deductive part: every accepted parameter set satisfies the documented ranges (check_input, Float64, complete), the random board has the requested shape and value ranges (gen_rnd_board/get_random_moves, any size), and every builder returns, for every tile, the non-empty transition list the rules prescribe with probabilities p and 1-p (p from check_input's range) or 1 -- so every state of every group has at least one transition and every probabilistic state's probabilities are positive and sum to 1 whenever 0 < p < 1. The remaining clauses are bounded executable contracts on the file actually written and read back.",
+    level_note="Trusted: z3/cvc5, the encoder, assumed contracts of random/math/argparse. Assembly inside write_robot_X, the text round trip and the 'then solved or refused' clause are bounded stand-ins; the last one has a known finding.",
+)
